@@ -168,6 +168,7 @@ fn count_score_facts(ctx: &mut Ctx, m: &ModelData, text: &[char], refs: &[i64]) 
     ctx.count("matched_chars_3_bytes", f.multibyte_in_match[3]);
     ctx.count("matched_chars_4_bytes", f.multibyte_in_match[4]);
     ctx.count("texts_longer_than_300", u64::from(text.len() > 300));
+    ctx.count("texts_longer_than_65535", u64::from(text.len() > 65535));
     f.char_occ + f.type_occ + f.dict_occ
 }
 
@@ -194,6 +195,10 @@ fn make_predictor(ctx: &mut Ctx, prop: &str, case: &Case, tags: bool) -> Option<
 pub fn opts_for(ctx: &Ctx, k: u64, tags: TagMode, tiny: bool) -> GenOpts {
     let mut o = if tiny { GenOpts::tiny() } else { GenOpts::default() };
     o.tags = tags;
+    if !tiny && k % 512 == 77 {
+        // one sentence with character positions beyond 65535
+        o.force_long_text = Some(66_000);
+    }
     if !tiny {
         if ctx.tier_thorough {
             // the tail (W up to 255, texts up to 2000) in 1 of 8 cases, else moderate sizes
@@ -468,7 +473,9 @@ pub fn run_c14(ctx: &mut Ctx, from: u64, to: u64, tiny: bool) {
         let case = gen_case(&mut rng, &o);
         let m = &case.model;
         count_model_facts(ctx, m);
-        let tags = !m.tag_models.is_empty() && rng.chance(3, 4);
+        // tag prediction is also requested for models without any tag model (a legal, if unusual, use)
+        let tags = if m.tag_models.is_empty() { rng.chance(1, 3) } else { rng.chance(3, 4) };
+        ctx.flag("predictors_with_tag_prediction_on_tagless_model", tags && m.tag_models.is_empty());
         ctx.flag("predictors_with_tag_prediction", tags);
         let Some(mut p) = make_predictor(ctx, "C14", &case, tags) else { continue };
         let trailing: Vec<u8> = (0..rng.below(40)).map(|_| rng.below(256) as u8).collect();
